@@ -222,6 +222,25 @@ theorem runPass_forest (p : PassT) (c : Ctx) (fuel : Nat) (h : WF c.seg) (hF : F
         rw [noteLoop_seg]
         exact ruleLoop_forest p _ _ s0 _ 0 j0 (show Forest (c.restartAt s0).seg from hF) hr
 
+/-- reversing the stream does not touch the attachment tree -/
+theorem reverse_treeSame (s : Seg) (mark : Nat → Bool) : TreeSame s (s.reverseSlots mark) := by
+  have hs := reverseSlots_same s mark
+  refine ⟨hs.free, fun j => ?_⟩
+  have := hs.slot j
+  unfold LinkOnly at this
+  rw [this]
+  exact ⟨rfl, rfl, rfl, rfl⟩
+
+theorem runPassDir_forest (p : PassT) (c : Ctx) (fuel : Nat) (h : WF c.seg) (hF : Forest c.seg) {c' : Ctx}
+    (e : runPassDir p c fuel = .ok (some c')) : Forest c'.seg := by
+  unfold runPassDir at e
+  split at e
+  · cases e; exact hF
+  · simp only [] at e
+    split at e
+    · exact runPass_forest p (c.withSeg (c.seg.reverseSlots (isMark c c.seg))) fuel (reverse_wf h _) (forest_congr (reverse_treeSame _ _) hF) e
+    · exact runPass_forest p c fuel h hF e
+
 theorem runRange_forest (passes : Array PassT) (c : Ctx) (lo hi fuel : Nat) (h : WF c.seg) (hF : Forest c.seg) {c' : Ctx}
     (e : runRange passes c lo hi fuel = .ok (some c')) : Forest c'.seg := by
   unfold runRange at e
@@ -236,7 +255,7 @@ theorem runRange_forest (passes : Array PassT) (c : Ctx) (lo hi fuel : Nat) (h :
       ∀ x, ks.foldl (fun (acc : Except String (Option Ctx)) k =>
         match acc with
         | .ok (some c1) =>
-          (match runPass (passes.getD (lo + k) default) c1 fuel with
+          (match runPassDir (passes.getD (lo + k) default) c1 fuel with
            | .ok (some c2) => if c2.seg.numGlyphs > 0 ∧ c2.seg.numGlyphs > c.seg.numGlyphs * 64 then .ok none else .ok (some c2)
            | o => o)
         | o => o) acc = .ok (some x) → WF x.seg ∧ Forest x.seg := by
@@ -255,7 +274,7 @@ theorem runRange_forest (passes : Array PassT) (c : Ctx) (lo hi fuel : Nat) (h :
           split at hy
           · cases hy
           · cases hy
-            exact ⟨runPass_spec _ c1 fuel (ha c1 rfl).1 hp, runPass_forest _ c1 fuel (ha c1 rfl).1 (ha c1 rfl).2 hp⟩
+            exact ⟨runPassDir_spec _ c1 fuel (ha c1 rfl).1 hp, runPassDir_forest _ c1 fuel (ha c1 rfl).1 (ha c1 rfl).2 hp⟩
         · rename_i o hno
           exact absurd hy (by
             intro hh
@@ -327,11 +346,11 @@ theorem appendSlot_allIso {s : Seg} (h : AllIso s) (id gid g : Nat) (adv : Int) 
   · rename_i a s1 e
     exact pushBack_allIso ((newSlot_allIso h e).upd a (fun sl => sl.initFor id gid adv) (fun _ => ⟨rfl, .inr rfl, rfl, rfl⟩)) a
 
-theorem initSeg_forest (font : Font) (text : List Nat) : Forest (initSeg font text) := by
+theorem initSeg_forest (font : Font) (text : List Nat) (dir : Nat := 0) : Forest (initSeg font text dir) := by
   apply forest_of_allIso
   unfold initSeg
   simp only []
-  have h0 : AllIso ({ numGlyphs := text.length, numChars := text.length, slots := Array.replicate (text.length + 10) ({} : Slot), free := List.range (text.length + 10), bufSize := Nat.log2 text.length + 1 } : Seg) := by
+  have h0 : AllIso ({ numGlyphs := text.length, numChars := text.length, slots := Array.replicate (text.length + 10) ({} : Slot), free := List.range (text.length + 10), bufSize := Nat.log2 text.length + 1, dir := dir } : Seg) := by
     intro j
     rw [get_replicate_default (text.length + 10) j _ rfl]
     exact ⟨rfl, rfl, rfl, rfl⟩
@@ -367,8 +386,8 @@ theorem reassoc_forest {seg seg' : Seg} {n : Nat} {ci : List Assoc.CI} (h : Fore
 
 /-- **C04, whole pipeline.** Whatever the font's passes, rules, constraints and action programs, and whatever the text: in
 the segment the modelled pipeline returns, the attachment pointers of the slots form a forest. -/
-theorem shape_forest (font : Font) (text : List Nat) (fuel : Nat) {c : Ctx} {ci : List Assoc.CI}
-    (e : shape font text fuel = .ok (some (c, ci))) : Forest c.seg := by
+theorem shape_forest (font : Font) (text : List Nat) (fuel : Nat) (dir : Nat) {c : Ctx} {ci : List Assoc.CI}
+    (e : shape font text fuel dir = .ok (some (c, ci))) : Forest c.seg := by
   unfold shape at e
   split at e
   · simp only [Except.ok.injEq, Option.some.injEq, Prod.mk.injEq] at e
@@ -381,8 +400,8 @@ theorem shape_forest (font : Font) (text : List Nat) (fuel : Nat) {c : Ctx} {ci 
     · cases e
     · cases e
     · rename_i c1 h1
-      have w1 := runRange_spec _ _ _ _ _ (initSeg_wf font text) h1
-      have f1 := runRange_forest _ _ _ _ _ (initSeg_wf font text) (initSeg_forest font text) h1
+      have w1 := runRange_spec _ _ _ _ _ (initSeg_wf font text dir) h1
+      have f1 := runRange_forest _ _ _ _ _ (initSeg_wf font text dir) (initSeg_forest font text dir) h1
       split at e
       · cases e
       · rename_i seg' ci' hre
